@@ -380,6 +380,20 @@ def rule_occurrence_wellformed(ctx, rep):
                     bad.setdefault('text-value-pair', (s, o))
                 if is_ord != ordinal:
                     bad.setdefault('ordinal-flag', (s, o))
+    # the occurrences handed out one by one by the lazy iterator obey the same span rules
+    lt = table(ctx, 'full', FULL, d, 10.0, 'lazy')
+    if not _unsupported(rep, R, lt):
+        return
+    for s, l in lt.items():
+        if l.error:
+            continue
+        last_end = 0
+        for o in l.occs:
+            if not (0 <= o[0] < o[1] <= len(s)):
+                bad.setdefault('span-in-stream', (s, o))
+            if o[0] < last_end:
+                bad.setdefault('increasing-disjoint', (s, ('find_numbers_iter',) + o))
+            last_end = o[1]
     why = {'span-in-stream': 'a span lies outside the token stream', 'increasing-disjoint': 'spans are not strictly increasing and disjoint',
            'span-on-accepted-words': 'a span does not begin and end on the first and last word accepted for that number',
            'text-value-pair': 'text and value do not come from one formatter result of the words inside the span',
@@ -539,6 +553,25 @@ def rule_lone_policy(ctx, rep):
             th, show(s), [o[:3] for o in got], [o[:3] for o in want], len(bad_pol)))
     else:
         rep.ok(R, 'small-and-isolated', 'reported = recognised minus small isolated numbers, for %d scripts x %d thresholds' % (n, len(ths) - 1))
+    # the lazy iterator applies the same policy (it drains the same tracker incrementally)
+    bad_lazy = []
+    for th in (10.0, float('inf')):
+        lt = table(ctx, 'core', alpha, d, th, 'lazy')
+        if not _unsupported(rep, R, lt):
+            return
+        bt = tabs[repr(th)]
+        for s, l in lt.items():
+            b = bt[s]
+            if l.error or b.error:
+                continue
+            if l.occs != b.occs:
+                bad_lazy.append((s, th, l.occs, b.occs))
+    if bad_lazy:
+        s, th, lo, bo = bad_lazy[0]
+        rep.violation(R, 'lazy-driver', 'threshold %s on `%s`: find_numbers_iter reports %s where the policy (and find_numbers) give %s (%d cases)' % (
+            th, show(s), [o[:3] for o in lo], [o[:3] for o in bo], len(bad_lazy)))
+    else:
+        rep.ok(R, 'lazy-driver', 'find_numbers_iter hides and reports the same numbers')
     rep.floor(R, n, 2500, 'scripts inspected')
     # what breaks a sequence, token class by token class: [one X one] at threshold 10 reports both numbers iff X is no breaker
     probes = [(',', False), ('.', True), (' . ', True), ('..', False), ('...', False), ('7', False), ('x1', True), ('the', True), ('of', False), ('and', False),
